@@ -589,6 +589,24 @@ func (e *e6Interp) binop(op token.Token, x, y *Sym, t types.Type) *Sym {
 			}
 		}
 	}
+	// parity of an unsigned value: x % 2 is x & 1, and (x & 1) != 0 is (x & 1) == 1 (likewise == 0 / != 1)
+	if op == token.REM && t != nil && y.isConst() && y.Const != nil && y.Const.Kind() == constant.Int {
+		if b, ok := t.Underlying().(*types.Basic); ok && b.Info()&types.IsUnsigned != 0 {
+			if v, ok := constant.Int64Val(y.Const); ok && v == 2 {
+				return &Sym{Op: "binop", Tok: token.AND, Args: []*Sym{x, symConst(constant.MakeInt64(1), t)}, Type: t}
+			}
+		}
+	}
+	if (op == token.NEQ || op == token.EQL) && x.Op == "binop" && x.Tok == token.AND && len(x.Args) == 2 && x.Args[1].isConst() && x.Args[1].Const != nil && x.Args[1].Const.String() == "1" && y.isConst() && y.Const != nil && y.Const.Kind() == constant.Int {
+		if v, ok := constant.Int64Val(y.Const); ok && (v == 0 || v == 1) {
+			// canonical form: == 1 or == 0
+			if op == token.NEQ {
+				op = token.EQL
+				v = 1 - v
+			}
+			return &Sym{Op: "binop", Tok: token.EQL, Args: []*Sym{x, symConst(constant.MakeInt64(v), x.Type)}, Type: t}
+		}
+	}
 	// linear folding: (b + c1) ± c2 -> b + (c1 ± c2)
 	if (op == token.ADD || op == token.SUB) && t != nil && isInteger(t) {
 		bx, ox, okx := linDecomp(x)
